@@ -75,6 +75,22 @@ def tab3Set (t : Tab3) (i j : Int) (c : Int × Int × Int) : M Tab3 := do
   if j' < 0 ∨ j' ≥ row.length then throw .indexError
   pure (t.set i'.toNat (row.set j'.toNat c))
 
+/-- `a / b` on exact rationals (they stand for Python's floats; rounding is not modelled) -/
+def ratDiv (a b : Rat) : M Rat := if b = 0 then throw .zeroDivisionError else pure (a / b)
+
+/-- `int(x)`: truncation towards zero -/
+def ratTrunc (x : Rat) : Int := if x ≥ 0 then x.floor else - (-x).floor
+
+/-- `math.factorial(n)` (`ValueError` for negative arguments) -/
+def pyFactorial (n : Int) : M Int :=
+  if n < 0 then throw .valueError else pure ((List.range n.toNat).foldl (fun (acc : Int) (k : Nat) => acc * ((k : Int) + 1)) 1)
+
+/-- a cost that may be `float("inf")` -/
+inductive ER
+  | fin (q : Rat)
+  | inf
+deriving DecidableEq, Repr, Inhabited
+
 /-- `Operation.index` of hrevolve_sequences: a pair (`[n0, n1]`, `[level, n]`) or a plain integer -/
 inductive PyIdx
   | pair (a b : Int)
